@@ -261,13 +261,13 @@ of the manager model (main loop, channel creation, channel workers, queues, diff
 safe for every tracked sequence: at every store — the initial store of a freshly created channel
 included — everything at or below the stored value was dispatched before, unless too-long was
 reported before. -/
-theorem C03_manager_prefix_safe (w : World) (fp fq : Int) (fc cr : List (Nat × Int)) (acts : List Action)
+theorem C03_manager_prefix_safe (w : World) (fp fq : Int) (fc cr : List (Nat × Int)) (acts : List Action) (ns : Bool)
     (hpe : w.persisted = fc) (hcr : w.cr = cr)
     (hS : scnOK w.log (seqKeys (fc ++ cr)) (initOf w.p0 w.q0 w.c0) = true) (k : Nat) (hk : k ∈ seqKeys (fc ++ cr)) :
     safe (seqLog w.log k) (mkOf w.log) (initOf fp fq (fc ++ cr) k) [] false
-      (projSeq w.log k ((Mgr.start orders w fp fq fc).runActions orders acts).trace) = true := by
+      (projSeq w.log k ((Mgr.start orders w fp fq fc ns).runActions orders acts).trace) = true := by
   have hscn := scn_of_ok _ _ _ hS
-  obtain ⟨hw, htr, _⟩ := mgr_projects orders orders_good w fp fq fc cr hpe hcr hscn acts k hk
+  obtain ⟨hw, htr, _⟩ := mgr_projects orders orders_good w fp fq fc cr hpe hcr hscn acts k hk ns
   rw [htr]
   exact C03_prefix_safe k (mkOf w.log) (seqLog w.log k) _ (initOf fp fq (fc ++ cr) k) (hscn.tiledK k hk) _ hw
 
@@ -278,10 +278,10 @@ first met in the first run whose initial state was not written before the crash:
 meets it at the same position); any actions; at its end the position of `k` is at or above every
 log position of `k`.  Then every non-marker entry of `k` above the original start was dispatched
 in `pre` or in the second run, or too-long was reported in one of them. -/
-theorem C03_manager_restart_complete (w : World) (fp fq : Int) (fc cr : List (Nat × Int)) (acts1 : List Action)
+theorem C03_manager_restart_complete (w : World) (fp fq : Int) (fc cr : List (Nat × Int)) (acts1 : List Action) (ns : Bool)
     (hpe : w.persisted = fc) (hcr : w.cr = cr)
     (hS : scnOK w.log (seqKeys (fc ++ cr)) (initOf w.p0 w.q0 w.c0) = true) (k : Nat) (hk : k ∈ seqKeys (fc ++ cr))
-    (pre post : List Event) (hp : ((Mgr.start orders w fp fq fc).runActions orders acts1).trace = pre ++ post)
+    (pre post : List Event) (hp : ((Mgr.start orders w fp fq fc ns).runActions orders acts1).trace = pre ++ post)
     (w2 : World) (hl2 : w2.log = w.log) (hp2 : w2.p0 = w.p0) (hq2 : w2.q0 = w.q0) (hc2 : w2.c0 = w.c0)
     (fp2 fq2 : Int) (fc2 cr2 : List (Nat × Int)) (hpe2 : w2.persisted = fc2) (hcr2 : w2.cr = cr2)
     (hkeys : seqKeys (fc2 ++ cr2) = seqKeys (fc ++ cr))
@@ -295,7 +295,7 @@ theorem C03_manager_restart_complete (w : World) (fp fq : Int) (fc cr : List (Na
         exempt (mkOf w.log) e = true ∨ e.id ∈ dispatchedIds (projSeq w.log k pre) ∨ e.id ∈ dispatchedIds t2 := by
   intro t2
   have hscn := scn_of_ok _ _ _ hS
-  obtain ⟨hw1, htr1, _⟩ := mgr_projects orders orders_good w fp fq fc cr hpe hcr hscn acts1 k hk
+  obtain ⟨hw1, htr1, _⟩ := mgr_projects orders orders_good w fp fq fc cr hpe hcr hscn acts1 k hk ns
   have hscn2 : Scn w2.log (seqKeys (fc2 ++ cr2)) (initOf w2.p0 w2.q0 w2.c0) := by
     rw [hl2, hp2, hq2, hc2, hkeys]; exact hscn
   obtain ⟨hw2, htr2, hbox2⟩ := mgr_projects orders orders_good w2 fp2 fq2 fc2 cr2 hpe2 hcr2 hscn2 acts2 k
